@@ -8,7 +8,7 @@
 From Coq Require Import String.
 From Coq Require Import List Arith ZArith.
 Import ListNotations.
-From YP Require Import Base.Str Term.Term Engine.Db Engine.DbCursor Engine.DbCursorThms Engine.DbSpec Engine.DbTotal Engine.DbFacts Engine.DbProg Engine.DbProgThms Engine.RunDbProg Engine.DbProgInv Engine.DbProgSim.
+From YP Require Import Base.Str Term.Term Term.Show Engine.Db Engine.DbCursor Engine.DbCursorThms Engine.DbSpec Engine.DbTotal Engine.DbFacts Engine.DbProg Engine.DbProgThms Engine.RunDbProg Engine.DbProgInv Engine.DbProgSim.
 
 (* For every history of asserta / assertz / assert_fact / query (all answers, or j answers then
    close) / retract (j answers requested, then closed; j larger than the number of matches = run to
@@ -94,8 +94,11 @@ Proof. eexists. eexists. split; [vm_compute; reflexivity|]. split; vm_compute; r
 
 (* ---- "issued through the Python API or FROM COMPILED CODE" ----
    DbProg.solve runs clause bodies (goals on dynamic facts and on compiled predicates, =, asserta/assertz/
-   retract/retractall, goals held in bound variables) depth first on a shared heap, the database being
-   threaded through the whole search: a goal stays suspended while the rest of the body - which may
+   retract/retractall, goals held in bound variables, and - round 5 - the control constructs !, fail, ( A ; B ),
+   ( C -> T ; E ), ( C -> T ), \+ C with the semantics of the repaired compiler: a cut inside a condition or under
+   \+ is local to it, a cut elsewhere ends the clause loop of its predicate and is not passed to the caller)
+   depth first on a shared heap, the database being threaded through the whole search - also through the
+   branches that a cut or a commit discards: a goal stays suspended while the rest of the body - which may
    update the same predicate - runs for each of its answers.  For every program, body, store, state and
    fuel: the database updates of the run (tr) are atomic LIST OPERATIONS, each applied to the list that is
    current when it happens -
@@ -103,8 +106,8 @@ Proof. eexists. eexists. split; [vm_compute; reflexivity|]. split; vm_compute; r
      ORet k i a     : an answer of retract: Answer i IS in the current list of k and is deleted from it;
      ORAll k gone   : retractall: the current list of k without the (distinct, present) Answers gone
    (valid_trace), the database after the run is their fold in execution order, identities stay unique. *)
-Theorem C07_compiled_updates_are_list_operations : forall uf prog n gs s g g' a tr,
-  ids_ok (gdb g) (gid g) -> solve uf prog n gs s g = Some (g', a, tr) ->
+Theorem C07_compiled_updates_are_list_operations : forall uf prog n gs s g g' a tr fl,
+  ids_ok (gdb g) (gid g) -> solve uf prog n gs s g = Some (g', a, tr, fl) ->
   valid_trace (gdb g) (gid g) tr /\ (forall k, gdb g' k = apply_outs tr (gdb g) k) /\ ids_ok (gdb g') (gid g').
 Proof. exact prog_no_lost_update. Qed.
 Print Assumptions C07_compiled_updates_are_list_operations.
@@ -122,6 +125,18 @@ Example C07_compiled_history :
   = OL [OL [otag "answers" [OL [OL []]]; otag "answers" [OL []]]; OL [OL []; OL []; OL []]; onat 4].
 Proof. vm_compute. reflexivity. Qed.
 
+(* non-vacuity, control constructs:  m :- ( flag -> retract(flag) ; assertz(flag) ), \+ nope(_), ( p(X), ! ; assertz(p(7)) ).
+   called three times: flag/0 is stored, removed, stored; nope/1 has no facts (the \+ succeeds, nothing raises); the first
+   call stores p(7) through the right branch, the later ones find it and commit: 3 Answers created *)
+Example C07_compiled_control :
+  let flag := TAtom (d "flag") in let p x := TFun (d "p") [x] in
+  let body := [GIf [GCall (d "flag") []] [GRetract flag] [GAssert false flag]; GNot [GCall (d "nope") [TVar 1]];
+               GOr [GCall (d "p") [TVar 0]; GCut] [GAssert false (p (TInt 7))]] in
+  run_prog 100 50 1000 [mkcl (d "m") 2 [] body] [(d "m", [], 0); (d "m", [], 0); (d "m", [], 0)] [(d "flag", 0); (d "p", 1); (d "nope", 1)]
+  = OL [OL [otag "answers" [OL [OL []]]; otag "answers" [OL [OL []]]; otag "answers" [OL [OL []]]];
+        OL [OL [OL []]; OL [OL [term_obs (TInt 7)]]; OL []]; onat 3].
+Proof. vm_compute. reflexivity. Qed.
+
 (* ---- compiled code, through the trace inclusion (Engine/DbProgSim.v, see C14_compiled_run_is_cursor_history) ----
    Every run of compiled code is a history of the cursor machine with the same database, the same identities
    and the same answers (up to the names of new variables).  So C07_db_refines_list_spec speaks about compiled code:
@@ -131,16 +146,16 @@ Proof. vm_compute. reflexivity. Qed.
    identity-free specification does not apply - that case is C14's; the operations are then still atomic list
    operations on the current list: C07_compiled_updates_are_list_operations.)  The history is given
    existentially; its shape is described in DbProgSim.v. *)
-Theorem C07_compiled_refines_list_spec : forall uf prog, prog_ok prog -> forall n gs s g g' a tr F,
-  cinv F gs s g -> ids_ok (gdb g) (gid g) -> solve uf prog n gs s g = Some (g', a, tr) ->
+Theorem C07_compiled_refines_list_spec : forall uf prog, prog_ok prog -> forall n gs s g g' a tr fl F,
+  cinv F gs s g -> ids_ok (gdb g) (gid g) -> solve uf prog n gs s g = Some (g', a, tr, fl) ->
   exists evs st' outs, run (match_fact uf) (st_of g) evs = Some (st', outs) /\ Rst g' st' /\ tr_eqv tr (dbouts outs) /\
     forall ops d0, evs = flat_map compile ops -> R d0 (st_of g) ->
       map vis outs = snd (srun (match_fact uf) d0 ops) /\ R (fst (srun (match_fact uf) d0 ops)) st'.
 Proof. exact prog_history_refines_list_spec. Qed.
 Print Assumptions C07_compiled_refines_list_spec.
 
-Theorem C07_compiled_run_is_cursor_history : forall uf prog, prog_ok prog -> forall n gs s g g' a tr F st,
-  cinv F gs s g -> solve uf prog n gs s g = Some (g', a, tr) -> Rst g st ->
+Theorem C07_compiled_run_is_cursor_history : forall uf prog, prog_ok prog -> forall n gs s g g' a tr fl F st,
+  cinv F gs s g -> solve uf prog n gs s g = Some (g', a, tr, fl) -> Rst g st ->
   exists evs st' outs, run (match_fact uf) st evs = Some (st', outs) /\ Rst g' st' /\ tr_eqv tr (dbouts outs).
 Proof. exact prog_run_is_cursor_history. Qed.
 Print Assumptions C07_compiled_run_is_cursor_history.
